@@ -388,7 +388,10 @@ func randEED(rng *rand.Rand, info bool) wPkg {
 	if rng.Intn(3) == 0 {
 		msg += "\n"
 	}
-	return encEED(1+rng.Intn(30000), rng.Intn(256), rng.Intn(256), randName(rng, 5), status, rng.Intn(5), msg,
+	// severities (class) and states at their boundaries: a message counts whatever its severity is
+	class := []int{0, 1, 10, 11, 14, 16, 20, 255, rng.Intn(256)}[rng.Intn(9)]
+	state := []int{0, 1, 127, 255, rng.Intn(256)}[rng.Intn(5)]
+	return encEED(1+rng.Intn(30000), state, class, randName(rng, 5), status, rng.Intn(5), msg,
 		randName(rng, 8), randName(rng, 8), rng.Intn(65536))
 }
 
